@@ -1271,6 +1271,30 @@ def check_intscale(case, rec):
         f"len_scale_vec {lsv} != len_scale * [1, anis] {ls_new * vec}",
         dict(tags, kind=kset, fn="len_scale_vec"),
     )
+    # "instead of the length scale": every other parameter stays as requested, i.e. the model is the one built
+    # with the resulting length scale (var is stored divided by a len_scale dependent factor for the TPL models)
+    for name in ("var", "nugget"):
+        gotp = float(lib(lambda: getattr(m, name), _tags=tags))
+        wantp = float(spec.get(name, 1.0 if name == "var" else 0.0))
+        require(
+            abs(gotp - wantp) <= 1e-12 * max(abs(wantp), 1e-300) if wantp else gotp == 0.0,
+            f"{cls}{spec.get('opt')} dim={dim}: Model({name}={wantp!r}, integral_scale={s2['integral_scale']!r}).{name} = {gotp!r}",
+            dict(tags, kind="integral_scale_ctor_changes_" + name),
+        )
+    s3 = dict(spec, len_scale=ls_new)
+    if dim > 1:
+        s3["anis"] = [float(a) for a in anis_want]
+    with common.quiet():
+        m3 = build_model(s3)
+    h = ls_new * np.array([0.0, 0.1, 0.5, 1.0, 3.0])
+    v2 = np.asarray(lib(m.variogram, h, _what="variogram", _tags=tags), dtype=float)
+    v3 = np.asarray(m3.variogram(h), dtype=float)
+    require(
+        np.allclose(v2, v3, rtol=1e-9, atol=1e-12 * float(m3.sill), equal_nan=True),
+        f"{cls}{spec.get('opt')} dim={dim}: variogram of Model(integral_scale={s2['integral_scale']!r}) {v2.tolist()} differs from the same model "
+        f"built with the resulting len_scale={ls_new!r}: {v3.tolist()}",
+        dict(tags, kind="integral_scale_ctor_vs_len_scale"),
+    )
 
 
 # ---------------------------------------------------------------------------
